@@ -290,7 +290,8 @@ def rule_forms(ctx: Ctx):
     ok = env is not None and _inside(a[0], lp[0]) and alg.normalise(env["term"]) == _prod(env["p"], f"{rf}({env['e']})") and S.has("return acc", {"acc": env["acc"]})
     ctx.check(ok, "ALG-2", f, a[0] if a else f.node, "expectation: sum of f(e) * p(e)", "", "expectation is not the probability-weighted sum")
     f = FD.methods["normalize"]
-    ok = Snips(f).solve(["total = sum(self.values())", "{e: p / total for e, p in self.items()}"]) is not None
+    ok = Snips(f).solve(["total = sum(self.values())", "{e: p / total for e, p in self.items()}"]) is not None \
+        or Snips(f).solve(["total = sum(self.values())", "for e, p in self.items():\n    d[e] = p / total", "return DictDistribution(d)"]) is not None
     ctx.check(ok, "ALG-2", f, f.node, "normalize: every mass divided by the total", "", "normalize changed")
     # (written after seed C11-c) the operations that compute a new distribution have no short-cut that hands back `self`: a distribution that is
     # only approximately in the target form (a tolerance test such as is_normalized()) would be returned unchanged
